@@ -36,6 +36,7 @@ type ev struct{}
 
 func ncalls(name string) int                     { return 0 }
 func callArg[T any](name string, k int, i int) T { var z T; return z }
+func callResult[T any](name string, k int) T      { var z T; return z }
 func writeSeq(evs ...ev) bool                    { return true }
 func evByte(c byte) ev                           { return ev{} }
 func evOpt(cond bool, e ev) ev                   { return ev{} }
@@ -546,7 +547,7 @@ func specStay(v int) bool {
 //@ func (l *Lexer) readLeadingComments()
 //@   props C10 C11 C15
 //@   requires lexInv(l)
-//@   modifies l.position, l.readPosition, l.CurrentChar, l.Line, l.Column, l.hadNewlineBefore, l.leadingComments
+//@   modifies l.position, l.readPosition, l.CurrentChar, l.Line, l.Column, l.hadNewlineBefore, l.leadingComments, l.carriedComments
 //@   loop 1 invariant [cursor] lexInv(l) && old(l.position) <= l.position
 //@   loop 1 invariant [skip] skipTrivia(l.input, l.position) == skipTrivia(l.input, old(l.position))
 //@   loop 1 invariant [nl] l.hadNewlineBefore == hasNL(l.input, old(l.position), l.position)
@@ -562,6 +563,7 @@ func specStay(v int) bool {
 //@   ensures [cursor] lexInv(l)
 //@   ensures [skip] l.position == skipTrivia(l.input, old(l.position))
 //@   ensures [mono] l.position >= old(l.position)
+//@   ensures [carried.used@C15] len(l.carriedComments) == 0
 //@   ensures [nl] l.hadNewlineBefore == hasNL(l.input, old(l.position), l.position)
 
 //@ func baseNextToken(l)
@@ -591,7 +593,7 @@ func specStay(v int) bool {
 //@ func (l *Lexer) NextToken()
 //@   props C10 C11 C04 C15
 //@   requires lexInv(l)
-//@   modifies l.position, l.readPosition, l.CurrentChar, l.Line, l.Column, l.hadNewlineBefore, l.leadingComments
+//@   modifies l.position, l.readPosition, l.CurrentChar, l.Line, l.Column, l.hadNewlineBefore, l.leadingComments, l.carriedComments
 //@   ensures [cursor] lexInv(l)
 //@   ensures [start] result.Start == posOf(l.input, skipTrivia(l.input, old(l.position)))
 //@   ensures [end] result.End == posOf(l.input, l.position-1) || result.End == posOf(l.input, l.position)
@@ -605,6 +607,9 @@ func specStay(v int) bool {
 //@   ensures [pos.mono@C10,C11] l.position >= old(l.position)
 //@   ensures [pos.progress@C10,C11] implies(result.Type != token.EOF, l.position > old(l.position))
 //@   ensures [pos.eof@C10,C11] implies(result.Type == token.EOF, l.position == len(l.input))
+//@   ensures [semicolon.bare@C15] implies(result.Type == token.SEMICOLON, len(result.LeadingComments) == 0)
+//@   ensures [semicolon.carried@C15] implies(callResult[token.Token]("baseNextToken", 0).Type == token.SEMICOLON && len(callResult[token.Token]("baseNextToken", 0).LeadingComments) > 0, sameStrs(l.carriedComments, callResult[token.Token]("baseNextToken", 0).LeadingComments))
+//@   ensures [others.keep@C15] implies(callResult[token.Token]("baseNextToken", 0).Type != token.SEMICOLON, sameStrs(result.LeadingComments, callResult[token.Token]("baseNextToken", 0).LeadingComments) && len(l.carriedComments) == 0)
 //@   ensures-def [origin] LexTok(result)
 
 //@ func (l *Lexer) useTokenInterceptor(interceptor)
